@@ -194,6 +194,15 @@ Definition exit_steps (s : st) : list step :=
   ++ (match tf s with Some _ => [UnlinkT] | None => [] end)
   ++ (match dl s with Some _ => [DiscardDl] | None => [] end).
 
+(* makedirs(basedir, exist_ok=True), AtomicWriteFile(dest), the block writes *)
+Definition download_steps (b : option slot) (cs : list N) : list step :=
+  (match b with None => [MkDir Base] | _ => [] end) ++ CreateDl :: map WriteDl cs.
+
+(* the two renames, then the bookkeeping files *)
+Definition install_steps (chunk : nat) (sv : srv) : list step :=
+  [RenameDir Base Old; RenameDir Upd Base]
+  ++ meta_steps chunk etag_name (sv_etag sv) ++ meta_steps chunk modified_name (sv_mod sv).
+
 Definition finish (l : list step) (s0 : st) (o : outcome) : list step * outcome :=
   (l ++ exit_steps (run l s0), o).
 
@@ -214,24 +223,18 @@ Definition sync (fixed force : bool) (sv : srv) (tar : tree * bool) (chunk : nat
   else match base s1 with
   | Some SFile => finish p1 s0 (Failed 2)
   | b =>
-    let p2 := p1 ++ (match b with None => [MkDir Base] | _ => [] end)
-                 ++ CreateDl :: map WriteDl (sv_chunks sv) in
-    if negb (sv_complete sv) then finish p2 s0 (Failed 3)
+    let dls := download_steps b (sv_chunks sv) in
+    if negb (sv_complete sv) then finish (p1 ++ dls) s0 (Failed 3)
     else
-    let p3 := p2 ++ [CommitDl] in
     match upd s1 with
-    | Some _ => finish p3 s0 (Failed 4)
+    | Some _ => finish (p1 ++ dls ++ [CommitDl]) s0 (Failed 4)
     | None =>
       match old s1 with
-      | Some _ => finish (p3 ++ [MkDir Upd]) s0 (Failed 4)
+      | Some _ => finish (p1 ++ dls ++ [CommitDl; MkDir Upd]) s0 (Failed 4)
       | None =>
-        let p4 := p3 ++ [MkDir Upd; MkDir Old; Extract (fst tar) (snd tar)] in
+        let p4 := p1 ++ dls ++ [CommitDl; MkDir Upd; MkDir Old; Extract (fst tar) (snd tar)] in
         if negb (snd tar) then finish p4 s0 (Failed 5)
-        else
-        let p5 := p4 ++ [RenameDir Base Old; RenameDir Upd Base]
-                     ++ meta_steps chunk etag_name (sv_etag sv)
-                     ++ meta_steps chunk modified_name (sv_mod sv) in
-        finish p5 s0 Updated
+        else finish (p4 ++ install_steps chunk sv) s0 Updated
       end
     end
   end.
@@ -278,7 +281,7 @@ Definition mid_okb (s : st) (o : step) (obs : st) : bool :=
 
 (* one observed crash point: [k] model steps completed, [mid] = inside step k; the state
    found; outcome code and final state of the follow-up sync started from that state *)
-Record cpoint : Type := mkcp { cp_k : nat; cp_mid : bool; cp_st : st; cp_out2 : N; cp_st2 : st }.
+Record cpoint : Type := mkcp { cp_k : nat; cp_mid : bool; cp_st : st; cp_f : bool (* follow-up sync observed *); cp_out2 : N; cp_st2 : st }.
 
 Record case : Type := mkcase {
   c_fixed : bool; c_force : bool; c_srv : srv; c_tar : tree * bool; c_chunk : nat; c_s0 : st;
@@ -292,7 +295,8 @@ Definition check_point (c : case) (steps : list step) (p : cpoint) : bool :=
   let sk := run (firstn (cp_k p) steps) s0 in
   (if cp_mid p then match nth_error steps (cp_k p) with Some o => mid_okb sk o (cp_st p) | None => false end
    else st_eqb sk (cp_st p))
-  && (let r2 := sync (c_fixed c) (c_force2 c) (c_srv2 c) (c_tar2 c) (c_chunk c) (cp_st p) in
+  && (negb (cp_f p) ||
+      let r2 := sync (c_fixed c) (c_force2 c) (c_srv2 c) (c_tar2 c) (c_chunk c) (cp_st p) in
       N.eqb (outcome_code (snd r2)) (cp_out2 p)
       && st_eqb (run (fst r2) (fresh (cp_st p))) (cp_st2 p)).
 
